@@ -28,7 +28,7 @@ def positions(expl, v, N):
     return pos
 
 
-def h_explain(f, N, txt=None, period=None, defs=None):
+def h_explain(f, N, txt=None, period=None, defs=None, before=None):
     f = T(f)
     names = []
     if defs:
@@ -44,6 +44,11 @@ def h_explain(f, N, txt=None, period=None, defs=None):
 
     def body(env):
         A = env.A
+        for txt0, period0 in (before or []):
+            # other specification objects explained earlier in the same process, under another sampling period: no state outside the object
+            s0 = dt.make_spec('offline', 'out = ' + txt0, vs, period=period0)
+            dt.offline(s0, {v: [-1.0] * N for v in vs}, N)
+            s0.explain()
         if defs:
             s = dt.make_spec('offline', txt_full, vs + names, period=period)
         else:
@@ -275,6 +280,11 @@ def obligations(tier, rng):
         if f[0] == 'once_t':
             f = ('eventually_t', f, 2, 2)
         out.append(ob('C20', 'explain', 'units/%s/p=%s' % (txt, period), f=f, N=6, txt=txt, period=period, max_paths=40000, wall=600))
+    # the same bound text explained under one sampling period and then under another (both orders), in one process
+    for txt, fa, fb in [('always[0:2]((x) >= (0.0))', ('always_t', GU, 0, 2), ('always_t', GU, 0, 4)), ('eventually[1:2]((x) >= (0.0))', ('eventually_t', GU, 1, 2), ('eventually_t', GU, 2, 4)),
+                        ('eventually[0,1](once[1:2]((x) >= (0.0)))', ('eventually_t', ('once_t', GU, 1, 2), 0, 1), ('eventually_t', ('once_t', GU, 2, 4), 0, 2))]:
+        out.append(ob('C20', 'explain', 'units-history/%s/1s then 500ms' % txt, f=fb, N=7, txt=txt, period=[500, 'ms', 0.1], before=[[txt, None]], max_paths=40000, wall=600))
+        out.append(ob('C20', 'explain', 'units-history/%s/500ms then 1s' % txt, f=fa, N=7, txt=txt, period=None, before=[[txt, [500, 'ms', 0.1]]], max_paths=40000, wall=600))
     # depth 3: a temporal operator over a Boolean combination with another temporal operator - the inner operator is asked
     # to explain SEVERAL disjoint intervals at once
     GA, GB = ('geq', X, ('const', 0.0)), ('geq', Y, ('const', 0.0))
